@@ -166,23 +166,26 @@ Definition fx_globals (s : sst) (lg : list item) : list srec :=
   flat_map (fun it => if it_del it || is_import it then [] else opt_rec (lookup (t_gtag s) (it_id it)) [it_fp it; it_id it] []) lg.
 
 (* ---------- the records of the probes, from the flags left by resolve_special_instrumentation ---------- *)
-(* add_opcode_injections: per instruction before / after / alternate, empty lists are skipped *)
-Fixpoint fx_loc_probes (pos : N) (idx : nat) (body : list (fop * flags)) (tagof : nat -> mode -> N)
+(* add_opcode_injections: per instruction before / after / alternate, empty lists are skipped.  The code loop
+   rewrites the ids of a list when it emits the list; at the function's final `end` ([last]) the alternate and the
+   after list are neither emitted nor rewritten, but they are reported all the same: stale ids *)
+Fixpoint fx_loc_probes (pos : N) (last idx : nat) (body : list (fop * flags)) (tagof : nat -> mode -> N)
                        (remap : list fop -> option (list fop)) : option (list srec) :=
   match body with
   | [] => Some []
   | (_, f) :: body' =>
-      let one (m : mode) (code : N) (l : list fop) : option (list srec) :=
+      let at_end := Nat.leb last idx in
+      let one (m : mode) (code : N) (l : list fop) (mapped : bool) : option (list srec) :=
         match l with
         | [] => Some []
-        | _ => match remap l with
+        | _ => match (if mapped then remap l else Some l) with
                | Some l' => Some [mkRec [1; code; N.of_nat idx; pos] l' (tagof idx m)]
                | None => None
                end
         end in
-      match one MBefore 0 (f_before f), one MAfter 1 (f_after f),
-            one MAlternate 2 (match f_alt f with Some a => a | None => [] end),
-            fx_loc_probes pos (S idx) body' tagof remap with
+      match one MBefore 0 (f_before f) true, one MAfter 1 (f_after f) (negb at_end),
+            one MAlternate 2 (match f_alt f with Some a => a | None => [] end) (negb at_end),
+            fx_loc_probes pos last (S idx) body' tagof remap with
       | Some a, Some b, Some c, Some rest => Some (a ++ b ++ c ++ rest)
       | _, _, _, _ => None
       end
